@@ -78,7 +78,7 @@ def run(tier, seed, replay):
                 states += r.distinct
                 trans += max(r.generated, r.nedges)
                 g = vlib.Graph(r)
-                paths, left = g.cover(seed=seed, max_len=30, max_paths=None if big else 60, prefer=lambda e: e[1]["n"] in ("TargetAbort", "Collect"))
+                paths, left = g.cover(seed=seed, max_len=30, max_paths=None if big else 60, prefer=lambda e: e[1]["n"] in ("TargetAbort", "Collect") or (e[1]["n"] == "Dial" and e[1].get("code") != "ok"))
                 graphs.append({"ServerNative": sn, "ClientNative": cn, "ListenerWait": lw, "distinct": r.distinct, "edges": len(g.edges),
                                "paths": len(paths), "uncovered_edges": left})
                 cases += cases_for(g, paths, sn, cn, lw, rnd, big and False)
